@@ -21,6 +21,7 @@ def kernel_pack(fams, flavours, which=None):
         _r('ROLES', rk.roles, fams, flavours),
         _r('DISC', rk.disc, fams, flavours, only=DISC6),
         _r('EXH', rk.exh, fams, flavours),
+        _r('EXEC1', rk.exec1, fams, flavours, only=('EXEC1',)),
         _r('FRONT', rk.frontier, fams, flavours),
         _r('TR0', rk.tr0, fams, flavours),
         _r('INIT', dp.init, flavours, fams, which),
@@ -76,7 +77,7 @@ PROPS['C03'] = dict(
     assumptions=STD,
 )
 PROPS['C20'] = dict(
-    rules=[_r('IT1', rg.it1, FLAVOURS), _r('IT2', rg.it2, FLAVOURS), _r('G2', rg.g2, FLAVOURS), _r('G3', rg.g3, FLAVOURS),
+    rules=[_r('IT1', rg.it1, FLAVOURS), _r('IT2', rg.it2, FLAVOURS), _r('IT3', rg.it3, FLAVOURS), _r('G2', rg.g2, FLAVOURS), _r('G3', rg.g3, FLAVOURS),
            _r('ROLES', rk.roles, ALLF, FLAVOURS), _r('TERM', rk.term, ALLF, FLAVOURS), _r('DISC', rk.disc, ALLF, FLAVOURS, only=('DISC-vii',))],
     explanation='A guard-lifetime statement: no iterator/builder type stores a guard (IT1); each node-iterator step takes one shared guard, reads the live entry at its position and '
                 'releases (IT2); no guard is held where a user callback runs or where an iterator is advanced, in all 48 kernels, isolate, scc, DOT and serde writers (G2); no conflicting '
@@ -123,10 +124,11 @@ PROPS['C07'] = dict(
 )
 PROPS['C08'] = dict(
     rules=[_r('ROLES', rk.roles, ALLF, DIRECTED), _r('TR0', rk.tr0, ALLF, DIRECTED), _r('TR1', dp.tr1, DIRECTED), _r('TR2', dp.tr2, DIRECTED), _r('REV', rm.rev, DIRECTED),
-           _r('ORIENT', re_.orient, DIRECTED), _r('DISC', rk.disc, ALLF, DIRECTED, only=DISC6)],
+           _r('ORIENT', re_.orient, DIRECTED), _r('DISC', rk.disc, ALLF, DIRECTED, only=DISC6),
+           _r('P1', re_.p1_connect, DIRECTED), _r('P2', re_.p2_disconnect_directed, DIRECTED), _r('P3', re_.p3_isolate, DIRECTED), _r('RM1', re_.rm1_first_match, DIRECTED), _r('ADJ-PRIM', re_.adj_prim, DIRECTED)],
     explanation='Directed flavours: every kernel has a well-formed orientation signature (OUT = iter_out + item, IN = iter_in + reversed item; TR0), every entry point sends the Outbound arm '
                 'to an OUT kernel and the Inbound arm to an IN kernel (TR1, 28 arms per flavour), constructors default to Outbound and only transpose() stores Inbound (TR2), reverse '
-                'swaps endpoints and keeps the value (REV), iter_in reads the IN list and presents (peer, self) (ORIENT).',
+                'swaps endpoints and keeps the value (REV), iter_in reads the IN list and presents (peer, self) (ORIENT); the IN lists mirror the OUT lists entry for entry (P1/P2/P3/RM1 of C01), which is what makes a stored edge u->v with value e come back as Edge(v, u, e).',
     decides='dispatch tables and orientation of every kernel',
     does_not_decide='nothing beyond the per-kernel search properties C04-C10, which are checked for IN kernels exactly as for OUT kernels',
     assumptions=STD,
